@@ -41,7 +41,7 @@ Lemma receive_store_shape :
       ps_w s' = ps_w s1 /\ ps_blocks s' = ps_blocks s1 /\ ps_game s' = ps_game s1 /\
       ps_unmined s' = ps_unmined s1 /\ ps_uinputs s' = ps_uinputs s1.
 Proof.
-  intros p own n s t s' H. unfold receive_store in H.
+  intros p own n s t s' H. unfold receive_store, receive_store_gen in H. cbn [andb] in H.
   destruct (t_cb t) eqn:Ecb.
   { cbn in H. destruct (filter_outs own (t_outs t) 0%N); discriminate. }
   split; [reflexivity|].
@@ -238,11 +238,20 @@ Proof.
     intros c0 Hc0. apply in_app_or in Hc0. destruct Hc0 as [Hc0|[<-|[]]]; auto.
 Qed.
 
-(* the wallet's rule and consensus differ on coinbase deposits: the stored maturity of a coinbase
-   output is the coinbase maturity whatever its script says *)
+(* a deposit made by a coinbase transaction: the stored maturity is the longer of the coinbase maturity and
+   the script's lock, so the wallet calls it withdrawable exactly when both have passed *)
+Theorem coinbase_deposit_both_locks :
+  forall p st c, c_maturity c = maturity_of p true (c_class c) ->
+    (mature st c = true <-> p_cbmat p <= confs st c /\ script_maturity p (c_class c) <= confs st c).
+Proof.
+  intros p st c Hm. unfold mature. rewrite Hm. unfold maturity_of. rewrite Z.leb_le. lia.
+Qed.
+
+(* the code as first found stored the coinbase maturity whatever the script says: such a deposit was
+   called withdrawable while consensus still locked it *)
 Theorem coinbase_deposit_maturity_refuted :
   exists p bp st c,
-    c_maturity c = maturity_of p true (c_class c) /\ c_class c = CStaking 10 /\
+    c_maturity c = maturity_as_found p true (c_class c) /\ c_class c = CStaking 10 /\
     mature st c = true /\
     match csv_operand bp (c_class c) (c_height c) with
     | Some v => sequence_lock_active (c_height c) v (fst (tip st) + 1) = false
@@ -327,10 +336,48 @@ Proof.
   intros l o H o' sp Hin. rewrite ui_get_del in Hin. destruct (op_eqb o o'); [destruct Hin|]. exact (H o' sp Hin).
 Qed.
 
-Lemma ui_ordered_del_inputs : forall t l, ui_ordered l -> ui_ordered (del_inputs_of l t).
+Lemma filter_len_le : forall (A : Type) (f : A -> bool) (l : list A), (length (filter f l) <= length l)%nat.
+Proof. intros A f l. induction l as [|a l IH]; cbn; [lia|]. destruct (f a); cbn; lia. Qed.
+
+Lemma filter_same_length : forall (A : Type) (f : A -> bool) (l : list A), length (filter f l) = length l -> filter f l = l.
 Proof.
-  intros t l. unfold del_inputs_of. generalize (t_ins t). intros ins. revert l.
-  induction ins as [|o ins IH]; intros l H; cbn; [exact H|]. apply IH. apply ui_ordered_del. exact H.
+  intros A f l. induction l as [|a l IH]; intros H; [reflexivity|]. cbn in *.
+  destruct (f a); cbn in *.
+  - f_equal. apply IH. lia.
+  - exfalso. pose proof (filter_len_le A f l). lia.
+Qed.
+
+(* reading the bucket after deleteUnminedInputs has taken [h] out of the list of [o] *)
+Lemma ui_get_remove :
+  forall l o h o', ui_get (ui_remove l o h) o' =
+                   if op_eqb o o' then filter (fun x => negb (x =? h)%N) (ui_get l o) else ui_get l o'.
+Proof.
+  intros l o h o'. unfold ui_remove.
+  destruct (ui_get l o) as [|x xs] eqn:Eg.
+  - destruct (op_eqb o o') eqn:E; [|reflexivity]. apply op_eqb_eq in E. subst o'. rewrite Eg. reflexivity.
+  - destruct (filter (fun x0 => negb (x0 =? h)%N) (x :: xs)) as [|y ys] eqn:Ef.
+    + rewrite ui_get_del. destruct (op_eqb o o'); reflexivity.
+    + destruct (length (y :: ys) =? length (x :: xs))%nat eqn:El.
+      * apply Nat.eqb_eq in El. rewrite <- Ef in El. apply filter_same_length in El.
+        destruct (op_eqb o o') eqn:E; [|reflexivity]. apply op_eqb_eq in E. subst o'. rewrite Eg. congruence.
+      * unfold ui_get at 1. cbn [find fst snd]. destruct (op_eqb o o') eqn:E; [reflexivity|].
+        change (match find (fun e => op_eqb (fst e) o') (ui_del l o) with Some e => snd e | None => [] end) with (ui_get (ui_del l o) o').
+        rewrite ui_get_del, E. reflexivity.
+Qed.
+
+Lemma ui_remove_sub : forall l o h o' sp, In sp (ui_get (ui_remove l o h) o') -> In sp (ui_get l o').
+Proof.
+  intros l o h o' sp H. rewrite ui_get_remove in H. destruct (op_eqb o o') eqn:E; [|exact H].
+  apply op_eqb_eq in E. subst o'. apply filter_In in H. exact (proj1 H).
+Qed.
+
+Lemma ui_ordered_remove : forall l o h, ui_ordered l -> ui_ordered (ui_remove l o h).
+Proof. intros l o h H o' sp Hin. apply ui_remove_sub in Hin. exact (H o' sp Hin). Qed.
+
+Lemma ui_ordered_del_inputs : forall t h l, ui_ordered l -> ui_ordered (del_inputs_of l t h).
+Proof.
+  intros t h l. unfold del_inputs_of. generalize (t_ins t). intros ins. revert l.
+  induction ins as [|o ins IH]; intros l H; cbn; [exact H|]. apply IH. apply ui_ordered_remove. exact H.
 Qed.
 
 Lemma ui_get_append : forall l o h o',
@@ -1013,10 +1060,22 @@ Proof.
   - apply A3. apply B3. assumption.
 Qed.
 
-Lemma del_inputs_sub : forall t l o sp, In sp (ui_get (del_inputs_of l t) o) -> In sp (ui_get l o).
+Lemma del_inputs_sub : forall t h l o sp, In sp (ui_get (del_inputs_of l t h) o) -> In sp (ui_get l o).
 Proof.
-  intros t. unfold del_inputs_of. generalize (t_ins t). intros ins. induction ins as [|k ins IH]; intros l o sp H; cbn [fold_left] in H; [exact H|].
-  apply IH in H. rewrite ui_get_del in H. destruct (op_eqb k o); [destruct H|exact H].
+  intros t h. unfold del_inputs_of. generalize (t_ins t). intros ins. induction ins as [|k ins IH]; intros l o sp H; cbn [fold_left] in H; [exact H|].
+  apply IH in H. eapply ui_remove_sub. exact H.
+Qed.
+
+(* after deleteUnminedInputs the transaction is registered under none of its inputs *)
+Lemma del_inputs_unregisters : forall t h l o, In o (t_ins t) -> ~ In h (ui_get (del_inputs_of l t h) o).
+Proof.
+  intros t h. unfold del_inputs_of. generalize (t_ins t). intros ins. induction ins as [|k ins IH]; intros l o Ho; [destruct Ho|].
+  cbn [fold_left]. destruct Ho as [->|Ho]; [|apply IH; exact Ho].
+  intros Hin.
+  assert (G : forall ins0 l0, In h (ui_get (fold_left (fun acc o0 => ui_remove acc o0 h) ins0 l0) o) -> In h (ui_get l0 o)).
+  { induction ins0 as [|k0 ins0 IH0]; intros l0 H0; cbn [fold_left] in H0; [exact H0|]. apply IH0 in H0. eapply ui_remove_sub. exact H0. }
+  apply G in Hin. rewrite ui_get_remove, op_eqb_refl in Hin. apply filter_In in Hin. destruct Hin as [_ E].
+  rewrite N.eqb_refl in E. discriminate.
 Qed.
 
 Lemma remove_conflict_shrinks :
@@ -1081,7 +1140,7 @@ Qed.
 Theorem remove_conflict_removes :
   forall fuel own s h t s', remove_conflict fuel own s h t = POk s' ->
     um_get (ps_unmined s') h = None /\
-    (forall o, In o (t_ins t) -> ui_get (ps_uinputs s') o = []) /\
+    (forall o, In o (t_ins t) -> ~ In h (ui_get (ps_uinputs s') o)) /\
     (forall i, In i (out_indexes t) -> uc_get (ps_ucredits s') (h, i) = None).
 Proof.
   intros fuel own s h t s' H. destruct fuel as [|f]; [discriminate|]. cbn [remove_conflict] in H.
@@ -1107,15 +1166,7 @@ Proof.
   destruct (fold_left per_out (out_indexes t) (POk s)) as [s4|e] eqn:E4; [|discriminate].
   inversion H; subst s'. cbn [ps_unmined ps_uinputs ps_ucredits set_unmined set_ugame set_uinputs set_ucredits set_game set_w set_blocks]. split; [|split].
   - rewrite um_get_del, N.eqb_refl. reflexivity.
-  - intros o Ho. unfold del_inputs_of.
-    assert (G : forall ins l, In o ins -> ui_get (fold_left (fun acc k => ui_del acc k) ins l) o = []).
-    { induction ins as [|k ins IH]; intros l Hin; [destruct Hin|]. cbn [fold_left].
-      destruct Hin as [->|Hin]; [|apply IH; exact Hin].
-      destruct (ui_get (fold_left (fun acc k => ui_del acc k) ins (ui_del l o)) o) as [|x xs] eqn:Ex; [reflexivity|].
-      assert (Hx : In x (ui_get (fold_left (fun acc k => ui_del acc k) ins (ui_del l o)) o)) by (rewrite Ex; left; reflexivity).
-      pose proof (del_inputs_sub {| t_id := 0%N; t_cb := false; t_ins := ins; t_outs := [] |} (ui_del l o) o x) as D.
-      unfold del_inputs_of in D. cbn in D. specialize (D Hx). rewrite ui_get_del, op_eqb_refl in D. destruct D. }
-    apply G. exact Ho.
+  - intros o Ho. apply del_inputs_unregisters. exact Ho.
   - intros i Hi. apply (Hfold (out_indexes t) (POk s) s4 E4 []); [intros s1 _ i0 []|exact Hi].
 Qed.
 
@@ -1530,32 +1581,20 @@ Qed.
 
 Definition pend (s : pstate) (h : N) : option uval := um_get (ps_unmined s) h.
 
-(* the guard: no two pending transactions spend the same outpoint (the shape of finding
-   flag-lost:shared-input-key is excluded), and a registration under an outpoint is by a transaction
-   that has this outpoint among its inputs *)
-Definition guard (s : pstate) : Prop :=
-  (forall h1 t1 h2 t2 o, pend s h1 = Some (USer t1) -> pend s h2 = Some (USer t2) ->
-                         In o (t_ins t1) -> In o (t_ins t2) -> h1 = h2) /\
-  (forall o sp st, In sp (ui_get (ps_uinputs s) o) -> pend s sp = Some (USer st) -> In o (t_ins st)) /\
-  (* every pending record is a serialized transaction (the repaired Rollback; see rollback_readable) *)
-  (forall h, pend s h <> Some ULoc).
-
-(* an outpoint's registrations are untouched, or were deleted together with a removed transaction that spent it *)
-Definition intact (s s' : pstate) : Prop :=
-  forall o, ui_get (ps_uinputs s') o = ui_get (ps_uinputs s) o \/
-            (ui_get (ps_uinputs s') o = [] /\
-             exists X tX, pend s X = Some (USer tX) /\ pend s' X = None /\ In o (t_ins tX)).
+(* a registration survives unless its own transaction is removed *)
+Definition kept (s s' : pstate) : Prop :=
+  forall o sp, In sp (ui_get (ps_uinputs s) o) -> In sp (ui_get (ps_uinputs s') o) \/ pend s' sp = None.
 
 (* every registered spender of an output of a removed transaction is gone as well *)
 Definition closed (s s' : pstate) : Prop :=
   forall X tX i D, pend s X = Some (USer tX) -> pend s' X = None -> In i (out_indexes tX) ->
                    In D (ui_get (ps_uinputs s) (X, i)) -> pend s' D = None.
 
-(* no registration is left under an input of a removed transaction *)
+(* a removed transaction is no longer registered under any of its inputs *)
 Definition cleared (s s' : pstate) : Prop :=
-  forall X tX o, pend s X = Some (USer tX) -> pend s' X = None -> In o (t_ins tX) -> ui_get (ps_uinputs s') o = [].
+  forall X tX o, pend s X = Some (USer tX) -> pend s' X = None -> In o (t_ins tX) -> ~ In X (ui_get (ps_uinputs s') o).
 
-Definition bundle (s s' : pstate) : Prop := shrinks s s' /\ intact s s' /\ closed s s' /\ cleared s s'.
+Definition bundle (s s' : pstate) : Prop := shrinks s s' /\ kept s s' /\ closed s s' /\ cleared s s'.
 
 Lemma shrinks_none : forall s s' h, shrinks s s' -> pend s h = None -> pend s' h = None.
 Proof.
@@ -1563,61 +1602,36 @@ Proof.
   apply A in E. congruence.
 Qed.
 
-Lemma guard_shrinks : forall s s', guard s -> shrinks s s' -> guard s'.
-Proof.
-  intros s s' (G1 & G2 & G3) (A & B & C). split; [|split].
-  - intros h1 t1 h2 t2 o H1 H2 I1 I2. eapply G1; eauto; apply A; assumption.
-  - intros o sp st Hin Hp. eapply G2; [apply C; exact Hin|apply A; exact Hp].
-  - intros h Hh. apply (G3 h). apply A. exact Hh.
-Qed.
-
 Lemma bundle_refl : forall s, bundle s s.
 Proof.
   intros s. split; [apply shrinks_refl|]. split; [|split].
-  - intros o. left. reflexivity.
+  - intros o sp H. left. exact H.
   - intros X tX i D H1 H2. congruence.
   - intros X tX o H1 H2. congruence.
 Qed.
 
-Lemma ui_get_empty_sub : forall s s' o, shrinks s s' -> ui_get (ps_uinputs s) o = [] -> ui_get (ps_uinputs s') o = [].
+Lemma bundle_trans : forall a b c, bundle a b -> bundle b c -> bundle a c.
 Proof.
-  intros s s' o (_ & _ & C) H. destruct (ui_get (ps_uinputs s') o) as [|x xs] eqn:E; [reflexivity|].
-  assert (Hx : In x (ui_get (ps_uinputs s') o)) by (rewrite E; left; reflexivity).
-  apply C in Hx. rewrite H in Hx. destruct Hx.
-Qed.
-
-Lemma bundle_trans : forall a b c, guard a -> bundle a b -> bundle b c -> bundle a c.
-Proof.
-  intros a b c Ga (Sab & Iab & Cab & Kab) (Sbc & Ibc & Cbc & Kbc).
+  intros a b c (Sab & Kab & Cab & Lab) (Sbc & Kbc & Cbc & Lbc).
   assert (Sac : shrinks a c) by (eapply shrinks_trans; eauto).
   split; [exact Sac|]. split; [|split].
-  - intros o. destruct (Ibc o) as [E|[E (X & tX & P1 & P2 & P3)]].
-    + destruct (Iab o) as [E'|[E' (X & tX & P1 & P2 & P3)]].
-      * left. congruence.
-      * right. split; [congruence|]. exists X, tX. split; [exact P1|]. split; [exact (shrinks_none b c X Sbc P2)|exact P3].
-    + right. split; [exact E|]. exists X, tX. split; [exact (proj1 Sab X _ P1)|]. split; [exact P2|exact P3].
+  - intros o sp H. destruct (Kab o sp H) as [Hb|Hb].
+    + exact (Kbc o sp Hb).
+    + right. exact (shrinks_none b c sp Sbc Hb).
   - intros X tX i D HX HXc Hi HD.
-    destruct (pend b X) as [v|] eqn:Eb.
-    + (* X is removed in the second part *)
-      assert (Ev : v = USer tX).
-      { pose proof (proj1 Sab X v Eb) as E. unfold pend in HX. congruence. }
-      subst v.
-      destruct (Iab (X, i)) as [E|[E (Y & tY & P1 & P2 & P3)]].
-      * apply (Cbc X tX i D Eb HXc Hi). rewrite E. exact HD.
-      * (* the key was deleted with a removed transaction Y that spends (X, i): D is that transaction, or not pending *)
-        destruct (pend a D) as [vD|] eqn:ED; [|exact (shrinks_none a c D Sac ED)].
-        destruct vD as [tD|].
-        -- assert (HDin : In (X, i) (t_ins tD)) by (eapply (proj1 (proj2 Ga)); eauto).
-           assert (EY : Y = D) by (eapply (proj1 Ga); eauto). subst Y.
-           exact (shrinks_none b c D Sbc P2).
-        -- exfalso. exact (proj2 (proj2 Ga) D ED).
-    + apply (shrinks_none b c D Sbc). eapply Cab; eauto.
-  - intros X tX o HX HXc Ho.
     destruct (pend b X) as [v|] eqn:Eb.
     + assert (Ev : v = USer tX).
       { pose proof (proj1 Sab X v Eb) as E. unfold pend in HX. congruence. }
-      subst v. exact (Kbc X tX o Eb HXc Ho).
-    + apply (ui_get_empty_sub b c o Sbc). exact (Kab X tX o HX Eb Ho).
+      subst v. destruct (Kab (X, i) D HD) as [Hb|Hb].
+      * exact (Cbc X tX i D Eb HXc Hi Hb).
+      * exact (shrinks_none b c D Sbc Hb).
+    + apply (shrinks_none b c D Sbc). eapply Cab; eauto.
+  - intros X tX o HX HXc Ho Hin.
+    destruct (pend b X) as [v|] eqn:Eb.
+    + assert (Ev : v = USer tX).
+      { pose proof (proj1 Sab X v Eb) as E. unfold pend in HX. congruence. }
+      subst v. exact (Lbc X tX o Eb HXc Ho Hin).
+    + apply (Lab X tX o HX Eb Ho). apply (proj2 (proj2 Sbc)). exact Hin.
 Qed.
 
 Definition removed_ok (s : pstate) (h : N) (s' : pstate) : Prop := bundle s s' /\ pend s' h = None.
@@ -1629,8 +1643,7 @@ Proof. intros A B f l e H. induction l as [|x l IH]; cbn [fold_left]; [reflexivi
 (* the loop over the spenders registered under one outpoint *)
 Lemma fold_spenders_bundle :
   forall (rc : pstate -> N -> tx -> pres pstate) (s1 : pstate),
-    guard s1 ->
-    (forall s2 sp st, guard s2 -> pend s2 sp = Some (USer st) -> okp (removed_ok s2 sp) (rc s2 sp st)) ->
+    (forall s2 sp st, pend s2 sp = Some (USer st) -> okp (removed_ok s2 sp) (rc s2 sp st)) ->
     forall sps s2 done_, bundle s1 s2 -> (forall x, In x done_ -> pend s2 x = None) ->
       okp (fun s3 => bundle s1 s3 /\ forall x, In x (done_ ++ sps) -> pend s3 x = None)
           (fold_left (fun (acc2 : pres pstate) (sp : N) =>
@@ -1643,11 +1656,10 @@ Lemma fold_spenders_bundle :
                                     end
                         end) sps (POk s2)).
 Proof.
-  intros rc s1 G1 Hrc sps. induction sps as [|sp sps IH]; intros s2 done_ B12 Hd; cbn [fold_left].
+  intros rc s1 Hrc sps. induction sps as [|sp sps IH]; intros s2 done_ B12 Hd; cbn [fold_left].
   - split; [exact B12|]. intros x Hx. rewrite app_nil_r in Hx. exact (Hd x Hx).
-  - assert (G2 : guard s2) by (eapply guard_shrinks; [exact G1|exact (proj1 B12)]).
-    destruct (um_get (ps_unmined s2) sp) as [[st|]|] eqn:E.
-    + specialize (Hrc s2 sp st G2 E).
+  - destruct (um_get (ps_unmined s2) sp) as [[st|]|] eqn:E.
+    + specialize (Hrc s2 sp st E).
       destruct (rc s2 sp st) as [s3|e].
       * cbn [okp] in Hrc. destruct Hrc as [B23 N3].
         assert (B13 : bundle s1 s3) by (eapply bundle_trans; eauto).
@@ -1664,40 +1676,34 @@ Proof.
       specialize (IH Hd3). rewrite <- app_assoc in IH. exact IH.
 Qed.
 
-Lemma ui_get_del_inputs :
-  forall t l o, ui_get (del_inputs_of l t) o = if existsb (op_eqb o) (t_ins t) then [] else ui_get l o.
+(* deleteUnminedInputs only takes the transaction's own hash out of the lists *)
+Lemma del_inputs_keeps : forall t h l o sp, In sp (ui_get l o) -> sp <> h -> In sp (ui_get (del_inputs_of l t h) o).
 Proof.
-  intros t. unfold del_inputs_of. generalize (t_ins t). intros ins.
-  induction ins as [|k ins IH]; intros l o; cbn [fold_left existsb]; [reflexivity|].
-  rewrite IH. rewrite ui_get_del. rewrite (op_eqb_sym o k).
-  destruct (op_eqb k o); cbn [orb]; [destruct (existsb (op_eqb o) ins); reflexivity|reflexivity].
-Qed.
-
-Lemma existsb_op_in : forall o l, existsb (op_eqb o) l = true <-> In o l.
-Proof.
-  intros o l. rewrite existsb_exists. split.
-  - intros [x [Hx E]]. apply op_eqb_eq in E. subst. exact Hx.
-  - intros H. exists o. split; [exact H|apply op_eqb_refl].
+  intros t h. unfold del_inputs_of. generalize (t_ins t). intros ins. induction ins as [|k ins IH]; intros l o sp H Hne; cbn [fold_left]; [exact H|].
+  apply IH; [|exact Hne]. rewrite ui_get_remove. destruct (op_eqb k o) eqn:E; [|exact H].
+  apply op_eqb_eq in E. subst k. apply filter_In. split; [exact H|].
+  destruct (sp =? h)%N eqn:Es; [apply N.eqb_eq in Es; contradiction|reflexivity].
 Qed.
 
 Lemma bundle_ucredits : forall s s3 k, bundle s s3 -> bundle s (set_ucredits s3 (uc_del (ps_ucredits s3) k)).
 Proof.
-  intros s s3 k ((A & B & C) & I & Cl & K). split; [|split; [|split]].
+  intros s s3 k ((A & B & C) & K & Cl & L). split; [|split; [|split]].
   - repeat split; auto. intros o c Hc. cbn [ps_ucredits set_ucredits] in Hc. rewrite uc_get_del in Hc.
     destruct (op_eqb k o); [discriminate|]. apply B. exact Hc.
-  - exact I.
-  - exact Cl.
   - exact K.
+  - exact Cl.
+  - exact L.
 Qed.
 
+(* removeConflict removes the transaction and, recursively, every registered spender of its outputs;
+   registrations of other transactions survive *)
 Theorem remove_conflict_bundle :
   forall fuel own s h t,
-    guard s -> pend s h = Some (USer t) -> okp (removed_ok s h) (remove_conflict fuel own s h t).
+    pend s h = Some (USer t) -> okp (removed_ok s h) (remove_conflict fuel own s h t).
 Proof.
-  induction fuel as [|f IH]; intros own s h t G Hp; [exact I|].
+  induction fuel as [|f IH]; intros own s h t Hp; [exact I|].
   cbn [remove_conflict].
   match goal with |- okp _ (match fold_left ?po _ _ with _ => _ end) => set (per_out := po) end.
-  (* loop invariant: the bundle, and the registered spenders of the outputs handled so far are gone *)
   assert (Hfold : forall idx done_ acc,
             okp (fun s1 => bundle s s1 /\ forall i D, In i done_ -> In D (ui_get (ps_uinputs s) (h, i)) -> pend s1 D = None) acc ->
             okp (fun s1 => bundle s s1 /\ forall i D, In i (done_ ++ idx) -> In D (ui_get (ps_uinputs s) (h, i)) -> pend s1 D = None)
@@ -1707,9 +1713,8 @@ Proof.
     - replace (done_ ++ i :: idx) with ((done_ ++ [i]) ++ idx) by (rewrite <- app_assoc; reflexivity).
       apply IHi. destruct acc as [s1|e]; [|exact I]. cbn [okp] in Hacc. destruct Hacc as [B1 D1].
       unfold per_out.
-      assert (G1 : guard s1) by (eapply guard_shrinks; [exact G|exact (proj1 B1)]).
-      pose proof (fold_spenders_bundle (fun s2 sp st => remove_conflict f own s2 sp st) s1 G1
-                    (fun s2 sp st G2 P2 => IH own s2 sp st G2 P2)
+      pose proof (fold_spenders_bundle (fun s2 sp st => remove_conflict f own s2 sp st) s1
+                    (fun s2 sp st P2 => IH own s2 sp st P2)
                     (ui_get (ps_uinputs s1) (h, i)) s1 [] (bundle_refl s1) (fun x Hx => match Hx with end)) as F.
       cbv beta in F.
       match goal with |- okp _ (match ?X with _ => _ end) => destruct X as [s3|e] end; [|exact I].
@@ -1719,39 +1724,34 @@ Proof.
       intros j D Hj HD. unfold pend. cbn [ps_unmined set_ucredits]. fold (pend s3 D).
       apply in_app_or in Hj. destruct Hj as [Hj|[<-|[]]].
       + exact (shrinks_none s1 s3 D (proj1 B13) (D1 j D Hj HD)).
-      + destruct (proj1 (proj2 B1) (h, i)) as [E|[E (Y & tY & P1 & P2 & P3)]].
-        * apply N3. rewrite E. exact HD.
-        * destruct (pend s D) as [vD|] eqn:ED; [|exact (shrinks_none s s3 D (proj1 B3) ED)].
-          destruct vD as [tD|]; [|exfalso; exact (proj2 (proj2 G) D ED)].
-          assert (HDin : In (h, i) (t_ins tD)) by (eapply (proj1 (proj2 G)); eauto).
-          assert (EY : Y = D) by (eapply (proj1 G); eauto). subst Y.
-          exact (shrinks_none s1 s3 D (proj1 B13) P2). }
+      + destruct (proj1 (proj2 B1) (h, i) D HD) as [Hin|Hn].
+        * exact (N3 D Hin).
+        * exact (shrinks_none s1 s3 D (proj1 B13) Hn). }
   specialize (Hfold (out_indexes t) [] (POk s)).
   assert (H0 : okp (fun s1 => bundle s s1 /\ forall i D, In i [] -> In D (ui_get (ps_uinputs s) (h, i)) -> pend s1 D = None) (POk s)).
   { split; [apply bundle_refl|intros i D []]. }
   specialize (Hfold H0). cbn [app] in Hfold.
   destruct (fold_left per_out (out_indexes t) (POk s)) as [s4|e]; [|exact I].
-  cbn [okp] in Hfold |- *. destruct Hfold as [((A4 & B4 & C4) & I4 & Cl4 & K4) D4].
-  set (s' := set_unmined (set_ugame (set_uinputs s4 (del_inputs_of (ps_uinputs s4) t))
-                 (rm_ugame_rows own (ps_ugame (set_uinputs s4 (del_inputs_of (ps_uinputs s4) t))) h t))
-               (um_del (ps_unmined (set_ugame (set_uinputs s4 (del_inputs_of (ps_uinputs s4) t))
-                 (rm_ugame_rows own (ps_ugame (set_uinputs s4 (del_inputs_of (ps_uinputs s4) t))) h t))) h)).
+  cbn [okp] in Hfold |- *. destruct Hfold as [((A4 & B4 & C4) & K4 & Cl4 & L4) D4].
+  set (s' := set_unmined (set_ugame (set_uinputs s4 (del_inputs_of (ps_uinputs s4) t h))
+                 (rm_ugame_rows own (ps_ugame (set_uinputs s4 (del_inputs_of (ps_uinputs s4) t h))) h t))
+               (um_del (ps_unmined (set_ugame (set_uinputs s4 (del_inputs_of (ps_uinputs s4) t h))
+                 (rm_ugame_rows own (ps_ugame (set_uinputs s4 (del_inputs_of (ps_uinputs s4) t h))) h t))) h)).
   assert (Epend : forall k, pend s' k = if (h =? k)%N then None else pend s4 k).
   { intros k. unfold pend, s'. cbn [ps_unmined set_unmined set_ugame set_uinputs]. apply um_get_del. }
-  assert (Eui : forall o, ui_get (ps_uinputs s') o = if existsb (op_eqb o) (t_ins t) then [] else ui_get (ps_uinputs s4) o).
-  { intros o. unfold s'. cbn [ps_uinputs set_unmined set_ugame set_uinputs]. apply ui_get_del_inputs. }
+  assert (Eui : ps_uinputs s' = del_inputs_of (ps_uinputs s4) t h) by reflexivity.
   assert (S4' : shrinks s4 s').
   { repeat split.
     - intros k v Hv. fold (pend s' k) in Hv. rewrite Epend in Hv. destruct (h =? k)%N; [discriminate|exact Hv].
     - intros o c Hc. exact Hc.
-    - intros o sp Hsp. rewrite Eui in Hsp. destruct (existsb (op_eqb o) (t_ins t)); [destruct Hsp|exact Hsp]. }
+    - intros o sp Hsp. rewrite Eui in Hsp. eapply del_inputs_sub. exact Hsp. }
   assert (S' : shrinks s s') by (eapply shrinks_trans; [|exact S4']; repeat split; assumption).
   assert (Nh : pend s' h = None) by (rewrite Epend, N.eqb_refl; reflexivity).
   split; [|exact Nh]. split; [exact S'|]. split; [|split].
-  - intros o. rewrite Eui. destruct (existsb (op_eqb o) (t_ins t)) eqn:Eo.
-    + right. split; [reflexivity|]. exists h, t. split; [exact Hp|]. split; [exact Nh|]. apply existsb_op_in. exact Eo.
-    + destruct (I4 o) as [E|[E (X & tX & P1 & P2 & P3)]]; [left; exact E|].
-      right. split; [exact E|]. exists X, tX. split; [exact P1|]. split; [exact (shrinks_none s4 s' X S4' P2)|exact P3].
+  - intros o sp Hsp. destruct (K4 o sp Hsp) as [H4|H4].
+    + destruct (N.eq_dec sp h) as [->|Hne]; [right; exact Nh|].
+      left. rewrite Eui. apply del_inputs_keeps; assumption.
+    + right. exact (shrinks_none s4 s' sp S4' H4).
   - intros X tX i D HX HX' Hi HD.
     destruct (N.eq_dec X h) as [->|Hne].
     + assert (tX = t) by congruence. subst tX.
@@ -1759,11 +1759,10 @@ Proof.
     + rewrite Epend in HX'. assert (Ehx : (h =? X)%N = false) by (apply N.eqb_neq; congruence). rewrite Ehx in HX'.
       exact (shrinks_none s4 s' D S4' (Cl4 X tX i D HX HX' Hi HD)).
   - intros X tX o HX HX' Ho. rewrite Eui.
-    destruct (existsb (op_eqb o) (t_ins t)) eqn:Eo; [reflexivity|].
     destruct (N.eq_dec X h) as [->|Hne].
-    + assert (tX = t) by congruence. subst tX. apply existsb_op_in in Ho. congruence.
+    + assert (tX = t) by congruence. subst tX. apply del_inputs_unregisters. exact Ho.
     + rewrite Epend in HX'. assert (Ehx : (h =? X)%N = false) by (apply N.eqb_neq; congruence). rewrite Ehx in HX'.
-      exact (K4 X tX o HX HX' Ho).
+      intros Hin. apply (L4 X tX o HX HX' Ho). eapply del_inputs_sub. exact Hin.
 Qed.
 
 (* descendants of a pending transaction through registered spends *)
@@ -1779,50 +1778,30 @@ Proof.
   - apply IH2. apply IH1. exact HN.
 Qed.
 
-(* a registered spender that is pending is gone after the key was processed, even when the key had been
-   deleted meanwhile — under the guard, only that spender's own removal can have deleted it *)
-Lemma spender_gone :
-  forall s s1 s3 k D,
-    guard s -> bundle s s1 -> shrinks s1 s3 ->
-    (forall x, In x (ui_get (ps_uinputs s1) k) -> pend s3 x = None) ->
-    In D (ui_get (ps_uinputs s) k) -> pend s3 D = None.
-Proof.
-  intros s s1 s3 k D G B1 S13 N3 HD.
-  destruct (proj1 (proj2 B1) k) as [E|[E (Y & tY & P1 & P2 & P3)]].
-  - apply N3. rewrite E. exact HD.
-  - destruct (pend s D) as [vD|] eqn:ED.
-    + destruct vD as [tD|]; [|exfalso; exact (proj2 (proj2 G) D ED)].
-      assert (HDin : In k (t_ins tD)) by (eapply (proj1 (proj2 G)); eauto).
-      assert (EY : Y = D) by (eapply (proj1 G); eauto). subst Y.
-      exact (shrinks_none s1 s3 D S13 P2).
-    + apply (shrinks_none s1 s3 D S13). exact (shrinks_none s s1 D (proj1 B1) ED).
-Qed.
-
 Lemma remove_spenders_bundle :
-  forall own s k, guard s ->
+  forall own s k,
     okp (fun s' => bundle s s' /\ forall x, In x (ui_get (ps_uinputs s) k) -> pend s' x = None) (remove_spenders own s k).
 Proof.
-  intros own s k G. unfold remove_spenders.
-  pose proof (fold_spenders_bundle (fun s2 sp st => remove_conflict (conflict_fuel s2) own s2 sp st) s G
-                (fun s2 sp st G2 P2 => remove_conflict_bundle (conflict_fuel s2) own s2 sp st G2 P2)
+  intros own s k. unfold remove_spenders.
+  pose proof (fold_spenders_bundle (fun s2 sp st => remove_conflict (conflict_fuel s2) own s2 sp st) s
+                (fun s2 sp st P2 => remove_conflict_bundle (conflict_fuel s2) own s2 sp st P2)
                 (ui_get (ps_uinputs s) k) s [] (bundle_refl s) (fun x Hx => match Hx with end)) as F.
   cbv beta in F. exact F.
 Qed.
 
 (* C09, conflicts: when a mined transaction spends a wallet coin, every pending transaction registered as
-   a spender of that coin is removed together with all its registered descendants, and no entry of the
-   unmined-inputs bucket mentions a removed transaction any more *)
+   a spender of that coin is removed together with all its registered descendants; a removed transaction
+   is no longer registered under any of its inputs; every other registration survives (only the mined
+   transaction's own hash leaves the lists) *)
 Theorem conflict_purges_descendants :
-  forall own s r s', guard s -> remove_double_spends own s r = POk s' ->
+  forall own s r s', remove_double_spends own s r = POk s' ->
     (forall ri T, In ri (rr_ins r) -> In T (ui_get (ps_uinputs s) (ri_prev ri)) ->
         pend s' T = None /\ forall D, desc s T D -> pend s' D = None) /\
-    (forall X tX, pend s X = Some (USer tX) -> pend s' X = None ->
-        (forall o, ~ In X (ui_get (ps_uinputs s') o)) /\
-        (forall o, In o (t_ins tX) -> spent_by_unmined s' o = false)) /\
+    (forall X tX o, pend s X = Some (USer tX) -> pend s' X = None -> In o (t_ins tX) -> ~ In X (ui_get (ps_uinputs s') o)) /\
+    (forall o sp, In sp (ui_get (ps_uinputs s) o) -> pend s' sp <> None -> sp <> t_id (rr_tx r) -> In sp (ui_get (ps_uinputs s') o)) /\
     shrinks s s'.
 Proof.
-  intros own s r s' G H. unfold remove_double_spends in H.
-  (* invariant of the loop over the relevant inputs *)
+  intros own s r s' H. unfold remove_double_spends in H.
   assert (Hloop : forall ins done_ acc,
             okp (fun s1 => bundle s s1 /\ forall ri T, In ri done_ -> In T (ui_get (ps_uinputs s) (ri_prev ri)) -> pend s1 T = None) acc ->
             okp (fun s1 => bundle s s1 /\ forall ri T, In ri (done_ ++ ins) -> In T (ui_get (ps_uinputs s) (ri_prev ri)) -> pend s1 T = None)
@@ -1832,37 +1811,33 @@ Proof.
     - rewrite app_nil_r. exact Hacc.
     - replace (done_ ++ ri :: ins) with ((done_ ++ [ri]) ++ ins) by (rewrite <- app_assoc; reflexivity).
       apply IHi. destruct acc as [s1|e]; [|exact I]. cbn [okp] in Hacc. destruct Hacc as [B1 D1].
-      assert (G1 : guard s1) by (eapply guard_shrinks; [exact G|exact (proj1 B1)]).
-      pose proof (remove_spenders_bundle own s1 (ri_prev ri) G1) as F.
+      pose proof (remove_spenders_bundle own s1 (ri_prev ri)) as F.
       destruct (remove_spenders own s1 (ri_prev ri)) as [s3|e]; [|exact I].
       cbn [okp] in F |- *. destruct F as [B13 N3].
       split; [eapply bundle_trans; eauto|].
       intros rj T Hj HT. apply in_app_or in Hj. destruct Hj as [Hj|[<-|[]]].
       + exact (shrinks_none s1 s3 T (proj1 B13) (D1 rj T Hj HT)).
-      + exact (spender_gone s s1 s3 (ri_prev ri) T G B1 (proj1 B13) N3 HT). }
+      + destruct (proj1 (proj2 B1) (ri_prev ri) T HT) as [Hin|Hn].
+        * exact (N3 T Hin).
+        * exact (shrinks_none s1 s3 T (proj1 B13) Hn). }
   specialize (Hloop (rr_ins r) [] (POk s)).
   assert (H0 : okp (fun s1 => bundle s s1 /\ forall ri T, In ri [] -> In T (ui_get (ps_uinputs s) (ri_prev ri)) -> pend s1 T = None) (POk s)).
   { split; [apply bundle_refl|intros ri T []]. }
   specialize (Hloop H0). cbn [app] in Hloop.
   destruct (fold_left _ (rr_ins r) (POk s)) as [s2|e]; [|discriminate].
   cbn [okp] in Hloop. destruct Hloop as [B2 D2]. inversion H; subst s'.
-  set (s' := set_uinputs s2 (del_inputs_of (ps_uinputs s2) (rr_tx r))).
+  set (s' := set_uinputs s2 (del_inputs_of (ps_uinputs s2) (rr_tx r) (t_id (rr_tx r)))).
   assert (Ep : forall k, pend s' k = pend s2 k) by reflexivity.
   assert (S2' : shrinks s2 s').
   { repeat split; auto. intros o sp Hsp. unfold s' in Hsp. cbn [ps_uinputs set_uinputs] in Hsp. eapply del_inputs_sub. exact Hsp. }
-  split; [|split].
+  split; [|split; [|split]].
   - intros ri T Hri HT. rewrite !Ep. split; [exact (D2 ri T Hri HT)|].
     intros D Hd. rewrite Ep. exact (closed_desc s s2 T D B2 Hd (D2 ri T Hri HT)).
-  - intros X tX HX HX'. rewrite Ep in HX'.
-    assert (Hclr : forall o, In o (t_ins tX) -> ui_get (ps_uinputs s') o = []).
-    { intros o Ho. apply (ui_get_empty_sub s2 s' o S2'). exact (proj2 (proj2 (proj2 B2)) X tX o HX HX' Ho). }
-    split.
-    + intros o Hin.
-      assert (Hs : In X (ui_get (ps_uinputs s) o)).
-      { apply (proj2 (proj2 (proj1 B2))). apply (proj2 (proj2 S2')). exact Hin. }
-      assert (Ho : In o (t_ins tX)) by (eapply (proj1 (proj2 G)); eauto).
-      rewrite (Hclr o Ho) in Hin. destruct Hin.
-    + intros o Ho. unfold spent_by_unmined. rewrite (Hclr o Ho). reflexivity.
+  - intros X tX o HX HX' Ho Hin. rewrite Ep in HX'.
+    apply (proj2 (proj2 (proj2 B2)) X tX o HX HX' Ho). apply (proj2 (proj2 S2')). exact Hin.
+  - intros o sp Hsp Hsurv Hne. rewrite Ep in Hsurv.
+    destruct (proj1 (proj2 B2) o sp Hsp) as [Hin|Hn]; [|contradiction].
+    unfold s'. cbn [ps_uinputs set_uinputs]. apply del_inputs_keeps; assumption.
   - eapply shrinks_trans; [exact (proj1 B2)|exact S2'].
 Qed.
 
@@ -1899,7 +1874,8 @@ Qed.
    ready wallet) is reported spent_by_unmined, is not eligible for new transactions, and the transaction
    can be read back from the pending set *)
 Theorem receive_flags :
-  forall p own n s t s', receive_store p own n s t = POk (Some s') -> pend s (t_id t) = None ->
+  forall p own n s t s', receive_store p own n s t = POk (Some s') ->
+    pend s (t_id t) = None -> tx_recorded s (t_id t) = false ->
     read_unmined s' (t_id t) = RdOk t /\
     forall ph pv pt o w, In (ph, pv) (t_ins t) ->
       lookup_pending n (ps_unmined s) ph = Some pt -> nth_error (t_outs pt) (N.to_nat pv) = Some o ->
@@ -1907,25 +1883,14 @@ Theorem receive_flags :
       In (t_id t) (ui_get (ps_uinputs s') (ph, pv)) /\ spent_by_unmined s' (ph, pv) = true /\
       forall c, credit_op c = (ph, pv) -> eligible s' c = false.
 Proof.
-  intros p own n s t s' H Hp. unfold receive_store in H. unfold pend in Hp.
-  destruct (t_cb t) eqn:Ecb.
-  { cbn in H. destruct (filter_outs own (t_outs t) 0%N); discriminate. }
-  destruct (filter_ins_unmined own (lookup_pending n (ps_unmined s)) (t_ins t) 0%N) as [ins|e] eqn:Eins; [|discriminate].
-  rewrite Hp in H.
-  set (s1 := set_uinputs (set_unmined s (um_put (ps_unmined s) (t_id t) (USer t)))
-               (fold_left (fun ui ri => ui_append ui (ri_prev ri) (t_id t)) ins
-                  (ps_uinputs (set_unmined s (um_put (ps_unmined s) (t_id t) (USer t)))))) in *.
-  assert (Hs' : ps_unmined s' = ps_unmined s1 /\ ps_uinputs s' = ps_uinputs s1).
-  { destruct ins as [|i0 ins']; destruct (filter_outs own (t_outs t) 0%N) as [|o0 outs']; try discriminate;
-      try (inversion H; subst s'; split; reflexivity);
-      (destruct (add_ucredits p (credits (ps_w s1)) (ps_ucredits s1) (t_id t) (o0 :: outs')); [|discriminate];
-       inversion H; subst s'; split; reflexivity). }
-  destruct Hs' as [Eu Ei]. split.
-  - unfold read_unmined. rewrite Eu. cbn [ps_unmined s1 set_uinputs set_unmined]. rewrite um_get_put, N.eqb_refl. reflexivity.
+  intros p own n s t s' H Hp Hrec. unfold pend in Hp.
+  destruct (receive_store_shape _ _ _ _ _ _ H) as (Ecb & ins & Eins & Hs). cbv zeta in Hs.
+  rewrite Hp, Hrec in Hs. destruct Hs as (_ & _ & _ & Eu & Ei). split.
+  - unfold read_unmined. rewrite Eu. unfold inserted. cbn [ps_unmined set_uinputs set_unmined]. rewrite um_get_put, N.eqb_refl. reflexivity.
   - intros ph pv pt o w Hin Hlk Hnth Hcls Hown.
     destruct (filter_ins_unmined_complete _ _ _ _ _ Eins ph pv pt o w Hin Hlk Hnth Hcls Hown) as [ri [Hri [Hprev _]]].
     assert (Hreg : In (t_id t) (ui_get (ps_uinputs s') (ph, pv))).
-    { rewrite Ei. cbn [ps_uinputs s1 set_uinputs]. rewrite <- Hprev.
+    { rewrite Ei. unfold inserted. cbn [ps_uinputs set_uinputs]. rewrite <- Hprev.
       clear -Hri. generalize (ps_uinputs (set_unmined s (um_put (ps_unmined s) (t_id t) (USer t)))).
       induction ins as [|r0 ins IH]; intros ui; [destruct Hri|]. cbn [fold_left].
       destruct Hri as [<-|Hri]; [|apply IH; exact Hri].
@@ -1941,58 +1906,85 @@ Proof.
     split; [exact Hflag|]. intros c Hc. apply eligible_not_flagged. rewrite Hc. exact Hflag.
 Qed.
 
-(* the flag is kept: while a pending transaction survives a mined record, its registrations survive,
-   except under the outpoints the mined transaction itself spends (a surviving spender of such an
-   outpoint is a double spend the wallet did not see as its own: finding stale-pending:foreign-input) *)
-Theorem flag_kept_by_mined_record :
-  forall p own h bid s r s', guard s -> p_apply_rec p own h bid s r = POk s' ->
-    forall o sp, In sp (ui_get (ps_uinputs s) o) -> pend s' sp <> None ->
-      ~ In o (t_ins (rr_tx r)) -> In sp (ui_get (ps_uinputs s') o).
+(* a transaction that is already recorded as mined is reported relevant but nothing is stored *)
+Theorem receive_already_mined :
+  forall p own n s t s', receive_store p own n s t = POk (Some s') ->
+    pend s (t_id t) = None -> tx_recorded s (t_id t) = true -> s' = s.
 Proof.
-  intros p own h bid s r s' G H o sp Hreg Hsurv Hno. unfold p_apply_rec in H.
+  intros p own n s t s' H Hp Hrec. unfold pend in Hp. unfold receive_store, receive_store_gen in H. cbn [andb] in H.
+  destruct (if t_cb t then Ok [] else filter_ins_unmined own (lookup_pending n (ps_unmined s)) (t_ins t) 0%N) as [ins|e]; [|discriminate].
+  rewrite Hp, Hrec in H.
+  destruct ins; destruct (filter_outs own (t_outs t) 0%N); try discriminate;
+    destruct (t_cb t); try discriminate; inversion H; reflexivity.
+Qed.
+
+(* the flag is kept: while a pending transaction survives a mined record, every registration it has
+   survives too (only the mined transaction's own hash leaves the lists, and those of the transactions
+   removed with it) *)
+Theorem flag_kept_by_mined_record :
+  forall p own h bid s r s', p_apply_rec p own h bid s r = POk s' ->
+    forall o sp, In sp (ui_get (ps_uinputs s) o) -> pend s' sp <> None -> In sp (ui_get (ps_uinputs s') o).
+Proof.
+  intros p own h bid s r s' H o sp Hreg Hsurv.
+  destruct (p_apply_rec_settles _ _ _ _ _ _ _ H) as (_ & Hgone & _).
+  assert (Hne : sp <> t_id (rr_tx r)).
+  { intros ->. apply Hsurv. exact Hgone. }
+  unfold p_apply_rec in H.
   set (s0 := set_blocks s (br_add (ps_blocks s) h bid (rr_tx r))) in *.
   destruct (withdraw_ins (credits (ps_w s0)) (ps_game s0) (rr_tx r) h (rr_ins r)) as [[cs1 g1]|e]; [|discriminate].
   set (sa := set_game (set_credits s0 cs1) g1) in *.
   set (s1 := settle sa (rr_tx r)) in *.
-  assert (S1 : shrinks s s1) by (apply (settle_shrinks sa (rr_tx r))).
-  assert (G1 : guard s1) by (eapply guard_shrinks; eauto).
   assert (Ui1 : ps_uinputs s1 = ps_uinputs s) by (unfold s1; rewrite (proj1 (settle_frame sa (rr_tx r))); reflexivity).
-  unfold remove_double_spends in H.
-  (* the loop over the relevant inputs keeps the bundle *)
-  assert (Hloop : forall ins acc, okp (bundle s1) acc ->
-            okp (bundle s1) (fold_left (fun (acc : pres pstate) (ri : rel_in) =>
-                              match acc with PErr e => PErr e | POk s2 => remove_spenders own s2 (ri_prev ri) end) ins acc)).
-  { induction ins as [|ri ins IHi]; intros acc Hacc; cbn [fold_left]; [exact Hacc|].
-    apply IHi. destruct acc as [s2|e]; [|exact I]. cbn [okp] in Hacc.
-    assert (G2 : guard s2) by (eapply guard_shrinks; [exact G1|exact (proj1 Hacc)]).
-    pose proof (remove_spenders_bundle own s2 (ri_prev ri) G2) as F.
-    destruct (remove_spenders own s2 (ri_prev ri)) as [s3|e]; [|exact I].
-    cbn [okp] in F |- *. eapply bundle_trans; [exact G1|exact Hacc|exact (proj1 F)]. }
-  specialize (Hloop (rr_ins r) (POk s1) (bundle_refl s1)).
-  destruct (fold_left _ (rr_ins r) (POk s1)) as [s2|e]; [|discriminate]. cbn [okp] in Hloop.
+  destruct (remove_double_spends own s1 r) as [s2|e] eqn:Er; [|discriminate].
+  destruct (conflict_purges_descendants own s1 r s2 Er) as (_ & _ & Hkeep & _).
   destruct (apply_outs p _ (rr_tx r) h bid (rr_outs r)) as [cs2|e]; [|discriminate].
   inversion H; subst s'.
   match goal with |- In sp (ui_get (ps_uinputs (add_game ?S _ _ _)) o) =>
     destruct (add_game_frame (rr_outs r) S (t_id (rr_tx r)) h) as (A & _ & C & _) end.
-  rewrite A. cbn [ps_uinputs set_credits set_w set_uinputs].
-  unfold pend in Hsurv. rewrite C in Hsurv. cbn [ps_unmined set_credits set_w set_uinputs] in Hsurv. fold (pend s2 sp) in Hsurv.
-  rewrite ui_get_del_inputs.
-  destruct (existsb (op_eqb o) (t_ins (rr_tx r))) eqn:Eo; [apply existsb_op_in in Eo; contradiction|].
-  destruct (proj1 (proj2 Hloop) o) as [E|[E (Y & tY & P1 & P2 & P3)]].
-  - rewrite E, Ui1. exact Hreg.
-  - (* the key was deleted with a removed transaction Y spending o: then Y = sp, which survives: contradiction *)
-    exfalso. destruct (pend s1 sp) as [v|] eqn:Es1.
-    + destruct v as [tsp|]; [|exact (proj2 (proj2 G1) sp Es1)].
-      assert (Hin : In o (t_ins tsp)). { eapply (proj1 (proj2 G1)); [rewrite Ui1; exact Hreg|exact Es1]. }
-      assert (EY : Y = sp) by (eapply (proj1 G1); eauto). subst Y. contradiction.
-    + apply Hsurv. exact (shrinks_none s1 s2 sp (proj1 Hloop) Es1).
+  rewrite A. cbn [ps_uinputs set_credits set_w].
+  unfold pend in Hsurv. rewrite C in Hsurv. cbn [ps_unmined set_credits set_w] in Hsurv.
+  apply Hkeep; [rewrite Ui1; exact Hreg|exact Hsurv|exact Hne].
 Qed.
 
-(* ================================================================ without the guard: the flag is lost *)
+(* ================================================================ the code as first found *)
 
-(* finding flag-lost:shared-input-key.  Two pending transactions T1 = {a, b} and T2 = {a, c} share the
-   wallet coin a; a transaction spending b confirms: removeConflict(T1) deletes the whole key of a
-   (deleteUnminedInputs), although T2 is still pending and spends a *)
+(* finding pending-while-mined (repaired in 0bc4560): a transaction first seen in a block and delivered as
+   unconfirmed afterwards was stored as pending although it is mined *)
+Module MinedThenDelivered.
+  Definition p : params := {| p_cbmat := 1; p_bindlock := 4294967294 |}.
+  Definition g : block := {| b_id := 0; b_prev := 0; b_height := 0; b_txs := [] |}.
+  Definition cb (id : N) : tx := {| t_id := id; t_cb := true; t_ins := []; t_outs := [ {| o_sh := 1; o_val := 5; o_class := CStd |} ] |}.
+  Definition t : tx := {| t_id := 10; t_cb := false; t_ins := [(1, 0)%N]; t_outs := [ {| o_sh := 9; o_val := 5; o_class := CStd |} ] |}.
+  Definition b1 : block := {| b_id := 1; b_prev := 0; b_height := 1; b_txs := [cb 1] |}.
+  Definition b2 : block := {| b_id := 2; b_prev := 1; b_height := 2; b_txs := [cb 2; t] |}.
+  Definition sim := prun p true g [PvOwner 1 1; PvAttach b1; PvProcess b1; PvAttach b2; PvProcess b2].
+End MinedThenDelivered.
+
+Theorem pending_while_mined_refuted :
+  let q := MinedThenDelivered.sim in
+  let s := h_store (q_h q) in
+  tx_recorded s 10%N = true /\
+  (exists s', receive_store_gen false MinedThenDelivered.p (own_of (q_own q)) (q_node q) s MinedThenDelivered.t = POk (Some s') /\
+              read_unmined s' 10%N = RdOk MinedThenDelivered.t) /\
+  receive_store MinedThenDelivered.p (own_of (q_own q)) (q_node q) s MinedThenDelivered.t = POk (Some s).
+Proof.
+  cbv zeta. split; [vm_compute; reflexivity|]. split; [|vm_compute; reflexivity].
+  eexists. split; [vm_compute; reflexivity|vm_compute; reflexivity].
+Qed.
+
+
+(* finding flag-lost:shared-input-key (repaired in 626fe73): deleteUnminedInputs deleted the whole entry of
+   every input, although another pending transaction may be registered under the same outpoint *)
+Theorem flag_lost_whole_key_refuted :
+  exists ui t o sp, In sp (ui_get ui o) /\ sp <> t_id t /\ ~ In sp (ui_get (del_inputs_of_found ui t) o) /\
+                    In sp (ui_get (del_inputs_of ui t (t_id t)) o).
+Proof.
+  exists [((1, 0)%N, [10; 11]%N)], {| t_id := 10; t_cb := false; t_ins := [(1, 0); (2, 0)]%N; t_outs := [] |}, (1, 0)%N, 11%N.
+  split; [vm_compute; right; left; reflexivity|]. split; [discriminate|]. split; [vm_compute; intros []|vm_compute; left; reflexivity].
+Qed.
+
+(* the scenario of that finding on the repaired model: T1 = {a, b} and T2 = {a, c} are pending, a
+   transaction spending b confirms; T1 is removed, T2 stays pending and a stays flagged and unselectable *)
 Module SharedKey.
   Definition p : params := {| p_cbmat := 1; p_bindlock := 4294967294 |}.
   Definition g : block := {| b_id := 0; b_prev := 0; b_height := 0; b_txs := [] |}.
@@ -2010,20 +2002,12 @@ Module SharedKey.
      PvReceive t1; PvReceive t2; PvAttach b4; PvProcess b4].
 End SharedKey.
 
-Theorem flag_lost_shared_key_refuted :
+Theorem shared_input_keeps_flag :
   let s := h_store (q_h (prun SharedKey.p true SharedKey.g SharedKey.evs)) in
-  Forall event_ordered SharedKey.evs /\
-  read_unmined s 11%N = RdOk SharedKey.t2 /\ In (1, 0)%N (t_ins SharedKey.t2) /\
-  spent_by_unmined s (1, 0)%N = false /\
-  exists c, In c (eligible_list s 1%N) /\ credit_op c = (1, 0)%N.
-Proof.
-  cbv zeta. split.
-  - unfold SharedKey.evs. repeat constructor; cbn; unfold block_ordered, tx_ordered; cbn;
-      intros; repeat match goal with H : _ \/ _ |- _ => destruct H | H : False |- _ => destruct H end; subst; cbn in *;
-      repeat match goal with H : _ \/ _ |- _ => destruct H | H : False |- _ => destruct H end; subst; cbn; reflexivity.
-  - split; [vm_compute; reflexivity|]. split; [left; reflexivity|]. split; [vm_compute; reflexivity|].
-    eexists. split; [vm_compute; left; reflexivity|reflexivity].
-Qed.
+  read_unmined s 10%N = RdNone /\ read_unmined s 11%N = RdOk SharedKey.t2 /\
+  spent_by_unmined s (1, 0)%N = true /\ spent_by_unmined s (3, 0)%N = true /\
+  map credit_op (eligible_list s 1%N) = [(4, 0)%N].
+Proof. vm_compute. repeat split; reflexivity. Qed.
 
 (* ================================================================ C10: deposit rows and deposit credits *)
 
@@ -2506,17 +2490,3 @@ Proof.
       * intros x Hx. destruct (B x Hx) as [Hg|(j & c2 & b2 & Hj & P)]; [left; exact Hg|right; exists j, c2, b2; split; [right; exact Hj|exact P]].
 Qed.
 
-(* a state with one pending transaction whose registrations are its own inputs satisfies the guard *)
-Lemma guard_one :
-  forall s h t, ps_unmined s = [(h, USer t)] ->
-    (forall o sp, In sp (ui_get (ps_uinputs s) o) -> sp = h /\ In o (t_ins t)) -> guard s.
-Proof.
-  intros s h t E Hui.
-  assert (P : forall k v, pend s k = Some v -> k = h /\ v = USer t).
-  { intros k v Hk. unfold pend, um_get in Hk. rewrite E in Hk. cbn [find fst snd] in Hk.
-    destruct (h =? k)%N eqn:Ek; [|discriminate]. apply N.eqb_eq in Ek. inversion Hk. auto. }
-  split; [|split].
-  - intros h1 t1 h2 t2 o H1 H2 _ _. destruct (P _ _ H1) as [-> _]. destruct (P _ _ H2) as [-> _]. reflexivity.
-  - intros o sp st Hin Hp. destruct (P _ _ Hp) as [_ Ev]. inversion Ev; subst st. exact (proj2 (Hui o sp Hin)).
-  - intros k Hk. destruct (P _ _ Hk) as [_ Ev]. discriminate.
-Qed.
